@@ -484,7 +484,7 @@ class Run:
             return
         for name, sp in specs.items():
             r = results.get(name) or HarnessResult(name)
-            short = name.split("::")[-1]
+            short = short_name(name)
             if sp.get("canary"):
                 self.canaries_expected += 1
                 if r.status == "failed" and any(d.startswith("CANARY") for d, _ in r.failed):
@@ -721,6 +721,17 @@ def known_matches(k, r):
     return True
 
 
+def short_name(harness):
+    """contract name used in evidence / known findings: the harness path without the injected module prefix;
+    a host-module path (C20: extended::<ver>::trigger) and nested harness modules (C14: family::vN) are kept"""
+    if "verif_kani::" in harness:
+        pre, rest = harness.split("verif_kani::", 1)
+        tail = rest.split("::", 1)[1] if "::" in rest else rest
+        pre = pre.strip(":").replace("::", "_")
+        return (pre + "__" if pre else "") + tail.replace("::", "__")
+    return harness.split("::")[-1]
+
+
 def slug(s):
     return re.sub(r"[^A-Za-z0-9_.-]+", "_", s)[:150]
 
@@ -793,6 +804,19 @@ def run_batches(run, scratch, batches, log_prefix=None):
         res, meta = kani_run(scratch, b.crate, names, features=b.features, jobs=b.jobs,
                              harness_timeout=b.harness_timeout, stubbing=b.stubbing, extra=b.extra,
                              logname=("%s-%s-%d.log" % (run.prop, run.tier, i)))
+        # cargo-kani aborts the whole invocation when one of its helper processes is killed (e.g. by the kernel under
+        # memory pressure); harnesses without any verdict are re-run, with fewer jobs, at most twice
+        jobs = b.jobs
+        for attempt in range(2):
+            missing = [n for n in names if res[n].status == "missing"]
+            if not missing or meta.get("compile_error"):
+                break
+            jobs = max(2, jobs // 2)
+            log("[kani] %d harness(es) without verdict (driver aborted); re-running them with -j%d" % (len(missing), jobs))
+            res2, meta2 = kani_run(scratch, b.crate, missing, features=b.features, jobs=jobs,
+                                   harness_timeout=b.harness_timeout, stubbing=b.stubbing, extra=b.extra,
+                                   logname=("%s-%s-%d-retry%d.log" % (run.prop, run.tier, i, attempt + 1)))
+            res.update(res2)
         run.absorb_kani(res, b.specs, meta, b.crate)
 
 
